@@ -24,7 +24,7 @@ def main():
         os.makedirs(dst, exist_ok=True)
         if os.path.isdir(src):
             for f in os.listdir(src):
-                if os.path.isfile(os.path.join(src, f)):
+                if os.path.isfile(os.path.join(src, f)) and os.path.abspath(src) != os.path.abspath(dst):
                     shutil.copy(os.path.join(src, f), os.path.join(dst, f))
         meta = json.load(open(os.path.join(src if os.path.isdir(src) else dst, "meta.json")))
         prev = {}
